@@ -370,7 +370,9 @@ def run_split(rec, seed, shape, kw, split):
         rec.obligations.append(dict(name=nm, verdict='unsat' if ok else 'sat', secs=0, form='Q2'))
         rec.distinct.add(nm)
         if not ok:
-            rec.candidates.append(dict(name=nm, env={}, info=dict(ob='split_x'), form='struct'))
+            # a point of this path (e.g. intervals with equal costs and bounds) for the numeric replay with the real solver
+            env_pt = common.generic_point(base, D.names, seed) or {}
+            rec.candidates.append(dict(name=nm, env=env_pt, info=dict(ob='split_x'), form='struct'))
             continue
         rec.twin(P + '/value', base, z3.BoolVal(False))
         rec.prove(P + '/value_is_sum', base, zl(res.value) == z3.Sum([zl(p.value) for p in probs]), form='Q2', info=dict(ob='split_value'))
@@ -678,6 +680,18 @@ def stub_replay(kwargs, env, info):
                 vals.append(None if isinstance(r, str) else float(r.value))
             out.update(split_value=None if isinstance(res, str) else float(res.value), interval_values=vals,
                        n_x=None if isinstance(res, str) else len(res.x), n_c=len(sc.op.c))
+            if not isinstance(res, str) and len(res.x) == len(sc.op.c):
+                # each part of the returned vector must be feasible for the interval problem it belongs to
+                from .. import obs as _obs
+                worst, off = 0.0, 0
+                for o_ in sc.ops:
+                    k_ = len(o_.c)
+                    po = _obs.problem_obs(o_)
+                    po = dict(po, A=[[float(v) for v in row] for row in po['A']] if len(po['A']) else [], b=[float(v) for v in po['b']],
+                              l=[float(v) for v in po['l']], u=[float(v) for v in po['u']])
+                    worst = max(worst, scen.feasibility_residual(po, [float(v) for v in res.x[off:off + k_]]))
+                    off += k_
+                out['interval_infeasibility'] = worst
         except Exception as e:  # noqa: BLE001
             out['real_solver_error'] = '%s: %s' % (type(e).__name__, e)
         return out
@@ -779,7 +793,9 @@ def judge(case, kwargs, cand, ans):
     if ob in ('split_value', 'split_x', 'split_duals'):
         iv = o.get('interval_values') or []
         bad = o.get('n_x') != o.get('n_c') or (None not in iv and o.get('split_value') is not None and abs(sum(iv) - o['split_value']) > 1e-6 * max(1, abs(o['split_value'])))
-        return bad, 'split result: value %s vs interval values %s; len(x) %s vs %s variables' % (o.get('split_value'), iv, o.get('n_x'), o.get('n_c'))
+        bad = bad or (o.get('interval_infeasibility') or 0.0) > 1e-5
+        return bad, 'split result: value %s vs interval values %s; len(x) %s vs %s variables; parts of x violate their interval problem by %s' % (
+            o.get('split_value'), iv, o.get('n_x'), o.get('n_c'), o.get('interval_infeasibility'))
     if ob == 'booleans':
         return (o.get('booleans_ok') is False), 'variables declared boolean to the solver %s, flagged in the mapping %s' % (o.get('recorded_bools'), o.get('flagged'))
     if ob in ('F=>rec', 'rec=>F', 'result_feasible'):
